@@ -1337,6 +1337,10 @@ impl Arena {
           return Ok(allocated);
         }
         Err(current) => {
+          // we failed to unlink the node we have marked, undo the mark,
+          // otherwise the node stays in the list as removed forever.
+          next_node.store(next_node_val, Ordering::Release);
+
           let (node_size, _) = decode_segment_node(current);
           if node_size == REMOVED_SEGMENT_NODE {
             // the current node is marked as removed, wait other thread to make progress.
@@ -1461,6 +1465,10 @@ impl Arena {
           return Ok(allocated);
         }
         Err(current) => {
+          // we failed to unlink the head we have marked, undo the mark,
+          // otherwise the head stays in the list as removed forever.
+          head.store(head_node_size_and_next_node_offset, Ordering::Release);
+
           let (node_size, _) = decode_segment_node(current);
           if node_size == REMOVED_SEGMENT_NODE {
             // The current head is removed from the list, wait other thread to make progress.
@@ -1544,6 +1552,10 @@ impl Arena {
           continue;
         }
         Err(current) => {
+          // we failed to unlink the head we have marked, undo the mark,
+          // otherwise the head stays in the list as removed forever.
+          head.store(head_node_size_and_next_node_offset, Ordering::Release);
+
           let (node_size, _) = decode_segment_node(current);
           if node_size == REMOVED_SEGMENT_NODE {
             // The current head is removed from the list, wait other thread to make progress.
